@@ -3315,8 +3315,16 @@ class BatchDataset(Dataset):
                 except IndexError:
                     if i == 0 or self.drop_last:
                         raise
-                    else:
-                        pass
+                    try:
+                        in_range = input_index + i < len(self.input_dataset)
+                    except TypeError:
+                        # No length (e.g. cycle): never behind the end.
+                        in_range = True
+                    if in_range:
+                        # Not the end of the input: the IndexError stems
+                        # from the evaluation of the example.
+                        raise
+                    break
             return current_batch
         # elif isinstance(index, str):
         # ToDo: allow merge/collate keys -> allows __getitem__(str)
